@@ -92,3 +92,83 @@ TO_SYSTEM = REG.add(Contract(
                       sys_.fields["force_field"] == top.fields["force_field"]),
                   top_eq=lambda a, b: _TOP.eq(a, b)),
     props=("C03",)))
+
+
+# ---- C03: which box the system is built in (and written with) -- BuildSystem.__init__ ------------------------------------------------
+from pyvc.types import T as _T, TVec as _TVec, TOpt as _TOpt, TReal as _TReal      # noqa: E402
+
+
+class _TKw(_T):
+    """**kwargs of the function under contract: a fresh python dict with the given keys on every path"""
+
+    def __init__(self, **ts):
+        self.ts = dict(ts)
+
+    def sorts(self):
+        return [s for t in self.ts.values() for s in t.sorts()]
+
+    def flat(self, v):
+        return [x for k, t in self.ts.items() for x in t.flat(v[k])]
+
+    def unflat(self, terms):
+        out, i = {}, 0
+        for k, t in self.ts.items():
+            n = len(t.sorts())
+            out[k] = t.unflat(terms[i:i + n])
+            i += n
+        return out
+
+    def fresh(self, name):
+        return {k: t.fresh(f"{name}.{k}") for k, t in self.ts.items()}
+
+
+TOPOLOGY_B = TRec("polyply.src.topology:Topology", molecules=TList(METAMOL), atom_types=TDict(TStr, ATYPE), box=_TOpt(TTuple(_TReal, _TReal, _TReal)))
+BSYS = TRec("polyply.src.build_system:BuildSystem")
+REG_B = Registry()
+REG_B.add(Contract(BOX.target, params=dict(topology=TOPOLOGY_B, density=TReal), result=TReal, requires=dict(BOX.requires), ensures=dict(BOX.ensures),
+                   spec_fns=BOX.spec_fns, trusted=True, note="the proved contract of _compute_box_size (unit density-box), re-stated for a topology record that also has a box field"))
+
+
+def _box3(v):
+    """(is set, three components) of a box held as an optional tuple, a tuple, an optional vector or a vector"""
+    from pyvc.types import Opt, NArr
+    if isinstance(v, Opt):
+        ok, c = _box3(v.val)
+        return z3.And(z3.Not(v.none), ok), c
+    if isinstance(v, NArr):
+        return z3.BoolVal(True), list(v.data[:3])
+    return z3.BoolVal(True), list(v[:3])
+
+
+def box_is(top, b):
+    ok, c = _box3(top.fields["box"] if hasattr(top, "fields") else top)
+    return z3.And(ok, *[ops.real(x) == ops.real(y) for x, y in zip(c, b)])
+
+
+def requested_or_density_box(self_, topology, old_topology, box, density):
+    """the requested box, else a cube whose edge is the density edge rounded to 5 decimals (edge^3 * density = 1.660541 * total mass)"""
+    edge = z3.Real("density_edge")
+    from pyvc.prelude import ROUND
+    r5 = ROUND.get(5)
+    given = z3.And(z3.Not(box.none), box_is(topology, _box3(box)[1]))
+    if r5 is None:
+        return given
+    cube = z3.Exists([edge], z3.And(edge >= 0, edge * edge * edge * density == 1.6605410 * OUTER(old_topology.fields["molecules"].n), box_is(topology, [r5(edge)] * 3)))
+    return z3.If(z3.Not(box.none), given, cube)
+
+
+INIT_BOX = REG_B.add(Contract(
+    "polyply.src.build_system:BuildSystem.__init__",
+    params=dict(self=BSYS, topology=TOPOLOGY_B, density=TReal, start_dict=TObj, grid_spacing=TReal, maxiter=TInt, box=_TOpt(_TVec(3)),
+                ignore=TObj, grid=_TOpt(TObj), cycles=TObj, kwargs=_TKw()),
+    requires={"positive density": "density > 0",
+              "every atom has a mass in [ atoms ] or an atom type with a mass (non-negative)": "masses_known(topology)"},
+    modifies=["topology.box"],
+    ensures={"the system is built in, and the topology afterwards carries, the box that was requested, else a cubic box whose volume is total mass over density "
+             "(edge rounded to 5 decimals)": "requested_or_density_box(self, topology, old(topology), box, density)",
+             "the processor uses the same box": "same_box(self.box, topology.box)"},
+    spec_fns=dict(requested_or_density_box=requested_or_density_box, masses_known=masses_known,
+                  same_box=lambda b, t: z3.And(_box3(b)[0], box_is(t, _box3(b)[1]))),
+    props=("C03",),
+    note="instance without extra random-walk keyword arguments; numpy.mgrid (the start grid) and inspect.getfullargspec are opaque values; round(x, 5) is a "
+         "function of x that is a multiple of 1e-5 within 0.5e-5 of x; _compute_box_size through its proved contract"))
